@@ -23,7 +23,7 @@ CFLAGS = ["-std=c11", "-g", "-O0", "-fsanitize=address,undefined", "-fno-sanitiz
 C_PROFILE = dict(opt_owned=True)
 
 
-def make_program(seed, idx, profile=None, ncalls=40, **genkw):
+def make_program(seed, idx, profile=None, ncalls=40, lang="c", **genkw):
     profile = dict(C_PROFILE, **(profile or {}))
     rng = random.Random("prog/%s/%s" % (seed, idx))
     g = spec.Gen(rng, profile=profile, name="p%d" % idx, **genkw)
@@ -35,7 +35,7 @@ def make_program(seed, idx, profile=None, ncalls=40, **genkw):
             m.raw_body = "self.id"
             t.methods.append(m)
     emit_rust.assign_abi_names(prog)
-    sc = calls.Script(prog, random.Random("script/%s/%s" % (seed, idx)))
+    sc = calls.Script(prog, random.Random("script/%s/%s" % (seed, idx)), lang=lang)
     sc.build(ncalls)
     return prog, sc
 
@@ -197,6 +197,9 @@ def productions(res_list):
             if st["kind"] == "destroy":
                 out["destroy"] += 1
                 continue
+            if st.get("rejected"):
+                out["rejected:utf8"] += 1
+                continue
             m, owner = st["m"], st["owner"]
             out["self:%s:%s" % (owner.kind, m.self_kind[0] if m.self_kind else "static")] += 1
             for pn, pt in m.params:
@@ -303,3 +306,67 @@ def c03_leg(chk, tier, seed):
             chk.violation("api-p%d" % r["idx"], "driver p%d aborted: %s" % (r["idx"], str(r.get("reports"))[:200]), witness(r))
     stats["distinct_histories"] = len(hist)
     return stats
+
+
+# --------------------------------------------------------------------------
+# C++ leg
+# --------------------------------------------------------------------------
+import emit_cpp
+
+CXXFLAGS = ["-g", "-O0", "-fsanitize=address,undefined", "-fno-sanitize-recover=all", "-fno-omit-frame-pointer"]
+
+
+CPP_PROFILE = dict(strs=False)     # slices of strings through C++ are a known finding on libstdc++ (F16); probed separately
+
+
+def run_cpp_program(seed, idx, tag, profile=None, ncalls=40, stds=("c++17", "c++20"), keep=False):
+    prog, sc = make_program(seed, idx, dict(CPP_PROFILE, **(profile or {})), ncalls, lang="cpp")
+    d = toolrun.fresh_dir(toolrun.workdir(tag, "p%d" % idx))
+    src = os.path.join(d, "lib.rs")
+    open(src, "w").write(emit_rust.emit_program(prog, bodies=True))
+    res = {"idx": idx, "dir": d, "prog": prog, "script": sc, "calls": sum(1 for s in sc.steps if s["kind"] == "call"),
+           "rejected_calls": sum(1 for s in sc.steps if s.get("rejected")),
+           "events": len(sc.expected), "sigs": [spec.method_sig(t, m) for t, m in prog.methods() if m.name not in ("make", "vf_id")]}
+    rc, o, e = toolrun.rustc_lib(src, os.path.join(d, "libvfprog.a"))
+    if rc != 0:
+        res.update(status="skip", stage="rustc", detail=e[-2000:])
+        return res
+    rc, o, e = toolrun.run_tool("cpp", src, os.path.join(d, "cpp"))
+    kind, det = toolrun.classify_tool(rc, e)
+    if kind != "ok":
+        res.update(status="skip", stage="tool:" + kind, detail=str(det)[:2000])
+        return res
+    drv = os.path.join(d, "driver.cpp")
+    open(drv, "w").write(emit_cpp.CppEmitter(sc).emit())
+    outputs = {}
+    res["status"] = "ok"
+    for std in stds:
+        exe = os.path.join(d, "driver_" + std.replace("+", "p"))
+        rc, o, e = run(["g++", "-std=" + std] + CXXFLAGS + ["-I", os.path.join(d, "cpp"), drv, os.path.join(d, "libvfprog.a")] + LINK_LIBS + ["-o", exe], timeout=600)
+        if rc != 0:
+            res.update(status="violation", stage="g++ -std=" + std, detail=e[-3000:])
+            return res
+        rc, out, err = run([exe], env=ASAN_ENV, timeout=120, cwd=d)
+        got = out.splitlines()
+        outputs[std] = got
+        res["observed_events"] = len(got)
+        res["observed_lines"] = got
+        reps = sanitizer_blocks(err)
+        diff = first_diff(sc.expected + ["END"], got)
+        if rc == -999:
+            res.update(status="inconclusive", stage="run", detail="watchdog")
+            return res
+        if diff or reps or rc != 0:
+            res.update(status="violation", stage="run -std=" + std, rc=rc, diff=diff, reports=reps, stderr=err[-3000:],
+                       context=got[max(0, (diff[0] if diff else len(got)) - 6):(diff[0] if diff else len(got)) + 3])
+            return res
+        if not keep:
+            os.remove(exe)
+    if len(outputs) == 2 and outputs[stds[0]] != outputs[stds[1]]:
+        res.update(status="violation", stage="c++17 vs c++20", diff=first_diff(outputs[stds[0]], outputs[stds[1]]), reports=[])
+    if not keep:
+        try:
+            os.remove(os.path.join(d, "libvfprog.a"))
+        except OSError:
+            pass
+    return res
